@@ -408,6 +408,88 @@ theorem S2_feed_eq_whole (ss : List Bytes) (hb : ss.flatten.length ≤ Gen.Http.
   rw [a.1, Framing.feed_eq_whole stableParser rfl ss trivial]
 
 open Iora.Http.Srv in
+/-- **S3b (the header-size cap is per request, not per pass).** For EVERY pipeline of well-formed requests each of whose OWN
+header section is at most `MAX_HEADER_SIZE` bytes - with no bound whatever on where in the pipeline a request starts: the only
+other hypothesis is that the whole pipeline fits the buffer cap - and for every segmentation of it (in particular: all of it
+in ONE read, so that later requests are extracted in the same pass behind more than 64 KiB of earlier bytes), every request
+is extracted and dispatched, in order, and the connection stays open with an empty buffer.  (This is `S1_pipeline_exact`
+with its hypotheses spelled out; the example below instantiates it with a 70 000-byte first request.) -/
+theorem S3b_header_cap_per_request (rs : List ReqSpec)
+    (hwf : ∀ r ∈ rs, ReqWF r.line r.before r.after r.body)
+    (hhdr : ∀ r ∈ rs, (reqHead r.line r.before r.after r.body).length ≤ Gen.Http.serverMaxHeaderSize)
+    (ss : List Bytes) (hss : ss.flatten = renderAll rs) (hb : (renderAll rs).length ≤ Gen.Http.serverMaxBufferSize) :
+    (srvFeed {} ss).1 = rs.map (fun r => dispatch r.raw) ∧ (srvFeed {} ss).2 = { buffer := [], alive := true } :=
+  S1_pipeline_exact rs (fun r hr => ⟨hwf r hr, hhdr r hr⟩) ss hss hb
+
+/-- `POST /big` with a 70 000-byte Content-Length body, and the `GET /two` pipelined behind it -/
+def bigBody : Bytes := List.replicate 70000 120
+theorem bigBody_length : bigBody.length = 70000 := List.length_replicate ..
+def bigReq : Srv.ReqSpec :=
+  { line := ascii "POST /big HTTP/1.1", before := [{ name := ascii "Host", value := ascii "a" }],
+    body := .sized (ascii "70000") bigBody }
+def followReq : Srv.ReqSpec :=
+  { line := ascii "GET /two HTTP/1.1", before := [{ name := ascii "Host", value := ascii "a" }], body := .empty }
+
+open Iora.Http.Srv Iora.Http.Spec in
+/-- non-vacuity beyond 64 KiB: the first request alone is longer than `MAX_HEADER_SIZE`, both requests arrive in ONE read (one
+extraction pass), and both are dispatched - the second one's header terminator lies at absolute offset > 65536 of that read -/
+example : bigReq.render.length > Gen.Http.serverMaxHeaderSize ∧
+    (srvFeed {} [renderAll [bigReq, followReq]]).1 = [dispatch bigReq.raw, dispatch followReq.raw] ∧
+    (srvFeed {} [renderAll [bigReq, followReq]]).2 = { buffer := [], alive := true } := by
+  have hostOK : PlainField { name := ascii "Host", value := ascii "a" } :=
+    ⟨⟨by decide, by decide, by decide, by decide, by decide, by decide⟩, by decide, by decide⟩
+  have w1 : ReqWF bigReq.line bigReq.before bigReq.after bigReq.body :=
+    { line_ne := by decide, line_ok := by decide,
+      line_key := by
+        intro colon hc
+        have : indexOf? (· == 58) bigReq.line = none := by decide
+        rw [this] at hc; cases hc
+      before_ok := by intro f hf; simp only [bigReq, List.mem_singleton] at hf; subst hf; exact hostOK
+      after_ok := by intro f hf; cases hf
+      body_ok := by
+        show tokValue 10 (ascii "70000") = some bigBody.length ∧ bigBody.length ≤ Gen.Http.serverMaxBodySize
+        rw [bigBody_length]; decide }
+  have w2 : ReqWF followReq.line followReq.before followReq.after followReq.body :=
+    { line_ne := by decide, line_ok := by decide,
+      line_key := by
+        intro colon hc
+        have : indexOf? (· == 58) followReq.line = none := by decide
+        rw [this] at hc; cases hc
+      before_ok := by intro f hf; simp only [followReq, List.mem_singleton] at hf; subst hf; exact hostOK
+      after_ok := by intro f hf; cases hf
+      body_ok := trivial }
+  have h1 : (reqHead bigReq.line bigReq.before bigReq.after bigReq.body).length = 50 := by decide
+  have h2 : (reqHead followReq.line followReq.before followReq.after followReq.body).length = 26 := by decide
+  have hw1 : bigReq.body.wire = bigBody := rfl
+  have hw2 : followReq.body.wire = [] := rfl
+  have hc : crlf2.length = 4 := rfl
+  have hl1 : bigReq.render.length = 50 + 4 + 70000 := by
+    simp only [ReqSpec.render, reqRender, List.length_append, h1, hw1, bigBody_length, hc]
+  have hl2 : followReq.render.length = 26 + 4 + 0 := by
+    simp only [ReqSpec.render, reqRender, List.length_append, h2, hw2, List.length_nil, hc]
+  have hlen : (renderAll [bigReq, followReq]).length = 50 + 4 + 70000 + (26 + 4 + 0) := by
+    simp only [renderAll, List.map_cons, List.map_nil, List.flatten_cons, List.flatten_nil, List.append_nil,
+      List.length_append, hl1, hl2]
+  refine ⟨?_, ?_⟩
+  · rw [hl1]; decide
+  · have := S3b_header_cap_per_request [bigReq, followReq]
+      (by intro r hr; simp only [List.mem_cons, List.not_mem_nil, or_false] at hr; rcases hr with rfl | rfl; exact w1; exact w2)
+      (by
+        intro r hr; simp only [List.mem_cons, List.not_mem_nil, or_false] at hr
+        rcases hr with rfl | rfl
+        · rw [h1]; decide
+        · rw [h2]; decide)
+      [renderAll [bigReq, followReq]] (by simp) (by rw [hlen]; decide)
+    simpa using this
+
+/-- **Gen conformance (extraction loop).** The statement skeleton of `handleIncomingData`'s pipelining loop regenerated from the
+working tree is the one the model was written from: the header terminator is searched from offset 0 of a buffer that is trimmed
+after every request, so `headerEnd`, the header-size limit, the chunk-scan start and the request end are all relative to the
+start of the CURRENT request (`extractOne`/`drainLoop`).  A loop that walks the buffer with a running offset, or any other
+change to what an offset is relative to, makes this fail to build. -/
+theorem gen_extract_loop : Gen.Http.serverExtractLoop = Srv.extractLoopModelled := by decide
+
+open Iora.Http.Srv in
 /-- **S3a (bounded buffer).** The session buffer never exceeds `MAX_BUFFER_SIZE`; a read that would exceed it closes the
 connection without being buffered. -/
 theorem S3_buffer_bounded (s : Sess) (seg : Bytes) (h0 : s.buffer.length ≤ Gen.Http.serverMaxBufferSize) :
